@@ -74,16 +74,16 @@ pub trait InnerFuture {
 //@end
 
 impl<F: InnerFuture> TimerFuture<F> {
-//@extract id=TimerFuture::poll file=crux_time/src/lib.rs within="impl<F> Future for TimerFuture<F>" item="fn poll" props=C13
+//@extract id=TimerFuture::poll file=crux_time/src/lib.rs within="impl<F> Future for TimerFuture<F>" item="fn poll" props=C13+C18
 //@expect fn poll( self: Pin<&mut Self>, cx: &mut std::task::Context<'_>, ) -> std::task::Poll<Self::Output>
 //@sig fn poll(&mut self, Tracked(w): Tracked<&mut World>, cx: &mut Context<'_>) -> (r: Poll<TimeResponse>)
 //@contract
         ensures
             final(self).timer_id == old(self).timer_id,
-            old(self).is_cleared ==> r == Poll::Ready(TimeResponse::Cleared { id: old(self).timer_id }) && *final(w) == *old(w) && final(self).is_cleared, // [C13/timer-poll/a-cleared-timer-stays-cleared-and-touches-nothing]
+            old(self).is_cleared ==> r == Poll::Ready(TimeResponse::Cleared { id: old(self).timer_id }) && *final(w) == *old(w) && final(self).is_cleared, // [C13+C18/timer-poll/a-cleared-timer-stays-cleared-and-touches-nothing]
             !old(self).is_cleared ==> final(w).cleared == old(w).cleared.remove(old(self).timer_id), // [C13/timer-poll/polling-takes-the-timers-own-id-out-of-the-cleared-set-and-no-other]
-            !old(self).is_cleared && old(w).cleared.contains(old(self).timer_id) ==> r == Poll::Ready(TimeResponse::Cleared { id: old(self).timer_id }) && final(self).is_cleared, // [C13/timer-poll/a-timer-cleared-since-the-last-poll-reports-cleared-at-once]
-            !old(self).is_cleared && !old(w).cleared.contains(old(self).timer_id) ==> r == old(self).future.next() && !final(self).is_cleared, // [C13/timer-poll/an-uncleared-timer-defers-to-the-shells-answer]
+            !old(self).is_cleared && old(w).cleared.contains(old(self).timer_id) ==> r == Poll::Ready(TimeResponse::Cleared { id: old(self).timer_id }) && final(self).is_cleared, // [C13+C18/timer-poll/a-timer-cleared-since-the-last-poll-reports-cleared-at-once]
+            !old(self).is_cleared && !old(w).cleared.contains(old(self).timer_id) ==> r == old(self).future.next() && !final(self).is_cleared, // [C13+C18/timer-poll/an-uncleared-timer-defers-to-the-shells-answer]
 //@rule X12.pin-erasure * s/self\.get_mut\(\)/self/
 //@rule X12.pin-erasure * s/Pin::new\(&mut this\.future\)\.poll\(cx\)/this.future.poll(Tracked(w), cx)/
 //@rule X6.world * s/\b(\w+)\.remove\(&/\1.remove(Tracked(w), &/
